@@ -172,6 +172,31 @@ def access(case, res):
                     pr["args"] = [S.next_val(c)]
                 S.ops.append(["route", c.name, pr])
                 S.request(c, "set" if e.is_state else "call", pr)
+            elif r < 0.78 and S.elements:
+                # a caller pipelines several requests to one element and leaves before the owner answers; somebody new arrives;
+                # then the owner answers: no answer (to a privileged request) may reach anybody else
+                path = rng.choice(sorted(S.elements))
+                e = S.elements[path]
+                if e.owner is not c and e.owner.alive():
+                    for _ in range(rng.choice([2, 3, 4])):
+                        pr = {"path": path}
+                        if e.is_state:
+                            pr["value"] = S.next_val(c)
+                        else:
+                            pr["args"] = [S.next_val(c)]
+                        S.request(c, "set" if e.is_state else "call", pr)
+                    S.settle()
+                    S.ops.append(["pipelined-then-leave", c.name, path])
+                    S.sig("pipelined-then-leave", e.is_state)
+                    S.end(c, rng.choice(["eof", "rst"]))
+                    S.settle()
+                    new_peer()
+                    S.settle()
+                    for cc in peers:
+                        for p in list(cc.pending.values()):
+                            if p.state == "forwarded" and p.reply is None and p.owner.alive():
+                                S.reply(p.owner, p, "result")
+                    S.settle()
             elif r < 0.82:
                 own = [e for e in S.elements.values() if e.owner is c and e.is_state]
                 if own:
